@@ -70,7 +70,7 @@ theorem release_signed (c : Chan) (n : Nat) : (release c n).signed = none := by
   repeat' split
   all_goals rfl
 
-theorem validate_frame (c : Chan) (n info : Nat) (sv pk : Bool) :
+theorem validate_frame (c : Chan) (n info : Nat) (sv : SigFact) (pk : Bool) :
     (validate c n info sv pk).c.next = c.next ∧ (validate c n info sv pk).c.closed = c.closed ∧
     (validate c n info sv pk).c.slot = c.slot ∧
     (validate c n info sv pk).out.secret = none ∧ (validate c n info sv pk).out.signed = none := by
@@ -79,7 +79,7 @@ theorem validate_frame (c : Chan) (n info : Nat) (sv pk : Bool) :
   repeat' split
   all_goals simp
 
-theorem facts_validate (c : Chan) (n info : Nat) (sv pk : Bool) :
+theorem facts_validate (c : Chan) (n info : Nat) (sv : SigFact) (pk : Bool) :
     Facts c.next c.closed (validate c n info sv pk) := by
   have f := validate_frame c n info sv pk
   constructor <;> simp [f.1, f.2.1, f.2.2.2.1, f.2.2.2.2]
@@ -278,7 +278,7 @@ structure Frame (c : Chan) (r : R) : Prop where
 
 theorem frame_fail (c : Chan) (x : Res) : Frame c (fail c x) := ⟨rfl, fun _ => ⟨rfl, rfl⟩⟩
 
-theorem frame_validate (c : Chan) (n info : Nat) (sv pk : Bool) : Frame c (validate c n info sv pk) := by
+theorem frame_validate (c : Chan) (n info : Nat) (sv : SigFact) (pk : Bool) : Frame c (validate c n info sv pk) := by
   have f := validate_frame c n info sv pk
   exact ⟨f.2.2.1, fun _ => ⟨f.1, f.2.1⟩⟩
 
